@@ -648,6 +648,9 @@ Definition i_vseries (st : index) (m k v : str) : index * list N :=
       end
   end.
 
+(** Index.SeriesIDSet / SeriesN *)
+Definition i_set (st : index) : list N := sunions (map p_set (i_parts st)).
+
 (** one observation: every query over the string universe (measurement-major order) *)
 Record obs := {
   o_meas : list str;
@@ -655,7 +658,8 @@ Record obs := {
   o_vals : list (list str);     (* per (m,k) *)
   o_ms : list (list N);         (* per m *)
   o_ks : list (list N);         (* per (m,k) *)
-  o_vs : list (list N)          (* per (m,k,v) *)
+  o_vs : list (list N);         (* per (m,k,v) *)
+  o_set : list N                (* Index.SeriesIDSet(): union of the partitions' series id sets *)
 }.
 Record universe := { u_ms : list str; u_ks : list str; u_vs : list str }.
 
@@ -675,7 +679,8 @@ Definition observe (u : universe) (st : index) : index * obs :=
       o_vals := map (fun mk => i_vals st (fst mk) (snd mk)) (pairs2 u);
       o_ms := map (i_mseries st) (u_ms u);
       o_ks := map (fun mk => i_kseries st (fst mk) (snd mk)) (pairs2 u);
-      o_vs := snd r |}).
+      o_vs := snd r;
+      o_set := i_set st |}).
 
 Definition shape (st : index) : list (list N) := map (fun p => map f_level (p_files p)) (i_parts st).
 
@@ -688,7 +693,11 @@ Definition spec := list sseries.
 Definition spec_step (sp : spec) (o : op) : spec :=
   match o with
   | OCreate l =>
-      fold_left (fun sp x => if existsb (fun s => N.eqb (ss_id s) (fst (fst x))) sp then sp
+      fold_left (fun sp x => if existsb (fun s => N.eqb (ss_id s) (fst (fst x))) sp
+                             then (* the same key created again with the id the series file kept *)
+                                  map (fun s => if N.eqb (ss_id s) (fst (fst x))
+                                                then {| ss_id := ss_id s; ss_name := ss_name s; ss_tags := ss_tags s; ss_live := true |}
+                                                else s) sp
                              else sp ++ [{| ss_id := fst (fst x); ss_name := fst (snd (fst x));
                                             ss_tags := snd (snd (fst x)); ss_live := true |}]) l sp
   | ODropSeries id _ =>
@@ -711,6 +720,7 @@ Definition spec_keys (sp : spec) (lo : bool) (m : str) : list str :=
 Definition spec_vals (sp : spec) (lo : bool) (m k : str) : list str :=
   flat_map (fun s => map snd (filter (fun kv => str_eqb (fst kv) k) (ss_tags s)))
            (sel sp lo (fun s => str_eqb (ss_name s) m)).
+Definition spec_set (sp : spec) (lo : bool) : list N := map ss_id (sel sp lo (fun _ => true)).
 Definition spec_ms (sp : spec) (m : str) : list N := map ss_id (sel sp true (fun s => str_eqb (ss_name s) m)).
 Definition spec_ks (sp : spec) (m k : str) : list N :=
   map ss_id (sel sp true (fun s => str_eqb (ss_name s) m && has_key s k)).
@@ -732,13 +742,14 @@ Fixpoint all2 {A B} (p : A -> B -> bool) (a : list A) (b : list B) : bool :=
 
 Definition obs_eq (a b : obs) : bool :=
   strs_eq (o_meas a) (o_meas b) && all2 strs_eq (o_keys a) (o_keys b) && all2 strs_eq (o_vals a) (o_vals b)
-  && all2 ids_eq (o_ms a) (o_ms b) && all2 ids_eq (o_ks a) (o_ks b) && all2 ids_eq (o_vs a) (o_vs b).
+  && all2 ids_eq (o_ms a) (o_ms b) && all2 ids_eq (o_ks a) (o_ks b) && all2 ids_eq (o_vs a) (o_vs b)
+  && ids_eq (o_set a) (o_set b).
 
 (** The oracle.  [strict] = the property's full statement: every listing equals that of the live
     series.  Non-strict = the strongest statement the unchanged code satisfies (see Props/C14.v):
     series sets exact; tag keys / values: every live one is listed and every listed one belonged
-    to a series that was created at some time; measurement names: exact unless Index.DropMeasurement
-    was applied earlier ([raw] = true), then the same sandwich. *)
+    to a series that was created at some time; measurement names and Index.SeriesIDSet: exact unless
+    Index.DropMeasurement was applied earlier ([raw] = true), then the same sandwich. *)
 Definition sandwich (lo hi x : list str) : bool := strs_sub lo x && strs_sub x hi.
 Definition oracle (u : universe) (strict raw : bool) (sp : spec) (o : obs) : bool :=
   (if strict || negb raw then strs_eq (o_meas o) (spec_meas sp true)
@@ -750,7 +761,9 @@ Definition oracle (u : universe) (strict raw : bool) (sp : spec) (o : obs) : boo
           (pairs2 u) (o_vals o)
   && all2 (fun m x => ids_eq x (spec_ms sp m)) (u_ms u) (o_ms o)
   && all2 (fun mk x => ids_eq x (spec_ks sp (fst mk) (snd mk))) (pairs2 u) (o_ks o)
-  && all2 (fun t x => ids_eq x (spec_vs sp (fst (fst t)) (snd (fst t)) (snd t))) (triples u) (o_vs o).
+  && all2 (fun t x => ids_eq x (spec_vs sp (fst (fst t)) (snd (fst t)) (snd t))) (triples u) (o_vs o)
+  && (if strict || negb raw then ids_eq (o_set o) (spec_set sp true)
+      else ids_sub (spec_set sp true) (o_set o) && ids_sub (o_set o) (spec_set sp false)).
 
 (* ------------------------------------------------------------------------- *)
 (** * Crash images: the active log of one partition cut after [cut] bytes, index reopened *)
@@ -799,6 +812,7 @@ Record case := {
   c_maxlog : N;
   c_cache : bool;
   c_strict : bool;               (* judge with the full statement (known-finding witnesses) *)
+  c_keep : bool;                 (* some series is dropped from the index but kept in the series file *)
   c_steps : list cstep;
   c_crash : option crash
 }.
@@ -815,7 +829,7 @@ Definition st_okb (st : index) : bool :=
 Definition is_raw (o : op) : bool := match o with ODropMeas _ => true | _ => false end.
 
 (** replay: returns (same, ok, final state) *)
-Fixpoint replay_steps (u : universe) (strict : bool) (st : index) (sp : spec) (raw : bool)
+Fixpoint replay_steps (u : universe) (strict keep : bool) (st : index) (sp : spec) (raw : bool)
          (l : list cstep) : bool * bool * index :=
   match l with
   | [] => (true, true, st)
@@ -825,11 +839,11 @@ Fixpoint replay_steps (u : universe) (strict : bool) (st : index) (sp : spec) (r
       let raw1 := raw || is_raw (s_op s) in
       let same_shape := list_eqb (list_eqb N.eqb) (shape st1) (s_shape s) in
       match s_obs s with
-      | None => let '(sm, ok, fin) := replay_steps u strict st1 sp1 raw1 r in (same_shape && sm, ok, fin)
+      | None => let '(sm, ok, fin) := replay_steps u strict keep st1 sp1 raw1 r in (same_shape && sm, ok, fin)
       | Some o =>
           let q := observe u st1 in
-          let '(sm, ok, fin) := replay_steps u strict (fst q) sp1 raw1 r in
-          (same_shape && st_okb st1 && obs_eq o (snd q) && sm, oracle u strict raw1 sp1 o && ok, fin)
+          let '(sm, ok, fin) := replay_steps u strict keep (fst q) sp1 raw1 r in
+          (same_shape && (keep || st_okb st1) && obs_eq o (snd q) && sm, oracle u strict raw1 sp1 o && ok, fin)
       end
   end.
 
@@ -868,7 +882,7 @@ Definition check_crash (u : universe) (st : index) (c : crash) : bool * bool :=
 
 Definition check (c : case) : verdict :=
   let st0 := new_index (c_parts c) (c_maxlog c) (c_cache c) in
-  let '(same, ok, fin) := replay_steps (c_univ c) (c_strict c) st0 [] false (c_steps c) in
+  let '(same, ok, fin) := replay_steps (c_univ c) (c_strict c) (c_keep c) st0 [] false (c_steps c) in
   match c_crash c with
   | None => judge same ok
   | Some cr => let r := check_crash (c_univ c) fin cr in judge (same && fst r) (ok && snd r)
